@@ -119,10 +119,13 @@ def case_for(draw, cmd):
     # make the response fit when the caller chooses the allocation length
     if resp is not None and resp[0] != "raw":
         need = len(FORMATS[resp[0]].build(resp[1]))
+        short = draw(st.integers(0, 7)) == 0  # one case in eight: the caller asks for the first part only
         for k in ALLOC_ARG:
             if k in a:
                 w = gen.std_width(cmd, k) or 16
                 a[k] = min((1 << w) - 1, max(a[k] % 4096, need + draw(st.integers(0, 16))))
+                if short and need > 1:
+                    a[k] = draw(st.integers(1, need - 1))
         if name == "readcapacity10" and "alloclen" in a:
             a["alloclen"] = max(8, a["alloclen"])
     return {"a": a, "resp": resp}
@@ -215,6 +218,22 @@ def make_check(cmd, table):
         # the result reflects what the device wrote during execute
         if resp is not None:
             expect(bytes(c.datain) == written.get("bytes"), "mismatch:datain_not_what_the_device_wrote")
+            if resp[0] != "raw" and hasattr(cmd.cls, "unmarshall_datain"):
+                # ... it is what the command's decoder makes of that buffer - also when the buffer holds only the
+                # first part of a response (short allocation length): if the decoder cannot decode it, the facade
+                # call cannot have succeeded with some other result
+                kw = {}
+                if cmd.name == "inquiry":
+                    kw = {"evpd": a.get("evpd", 0)}
+                elif cmd.name == "readcd":
+                    kw = {k: a.get(k, 0) for k in ("lba", "tl", "est", "mcsb", "c2ei", "scsb")}
+                try:
+                    direct = cmd.cls.unmarshall_datain(bytearray(written["bytes"]), **kw)
+                except Exception as e:  # noqa
+                    raise Violation("mismatch:facade_succeeded_where_the_decoder_fails",
+                                    {"decoder_error": repr(e)[:160], "result": common.short(c.result, 200)})
+                expect(c.result == direct, "mismatch:result_is_not_the_decoders_output", got=common.short(c.result, 300),
+                       want=common.short(direct, 300))
             if resp[0] != "raw" and written.get("full"):
                 d = respgen.compare(c.result, FORMATS[resp[0]].expect(resp[1]))
                 if d is not None:
